@@ -255,7 +255,15 @@ def drive(case, monitors, learner_cls=None, step_limit=10 ** 7, wall_s=600, use_
                             m.before_query(ctx)
                         if budget:
                             budget.reset()
-                        q = ctx.algo.get_last_point()
+                        try:
+                            q = ctx.algo.get_last_point()
+                        except Exception:
+                            if not case.get("tolerate_query_errors"):
+                                raise
+                            # a recommendation asked too early raises (known findings of C01); the run goes on
+                            ctx.extra["queries_raising"] = ctx.extra.get("queries_raising", 0) + 1
+                            hub.phase = "idle"
+                            continue
                         if budget:
                             budget.note()
                         hub.phase = "idle"
@@ -337,6 +345,8 @@ def result_of(ctx, monitors, owner_of_crashes=False, nontrivial=None, prefix=Non
         res["obs"]["max_steps_per_call"] = ctx.budget.max_seen
     if ctx.extra.get("inj"):
         res["obs"]["rng_outcomes_injected"] += ctx.extra["inj"]
+    if ctx.extra.get("queries_raising"):
+        res["obs"]["early_queries_raising_ignored"] += ctx.extra["queries_raising"]
     if ctx.extra.get("ambiguous"):
         res["obs"]["runs_stopped_ambiguous_point_identity"] += 1
     if ctx.hub.value_resolved:
